@@ -29,12 +29,15 @@ type Step struct {
 	Until int    `json:"until"`
 	J     int    `json:"j"`
 	Res   string `json:"res"`
+	ID    int    `json:"id"` // Post: identity of the exchange; Ret: the exchange whose response the result carries (0: none)
+	No    int    `json:"no"` // which submission of the caller
 	Ctx   []int  `json:"ctx"`
 	Start []int  `json:"start"`
 }
 
 func writeEvents(rec, scen *vh.Recorder, run *Run, sc Scenario) {
 	if run.Runaway != "" {
+		proc.poisoned = true // its events are not written: the process history starts afresh
 		return // reported by the monitor; thousands of events at one instant are not worth a trace validation
 	}
 	scen.Emit(map[string]any{"hc": sc.HC, "opts": sc.Opts, "callers": sc.Callers})
@@ -206,6 +209,25 @@ func compareWithSpec(rep *vh.Report, beh []Step, sc Scenario, run *Run, idx int)
 					fmt.Sprintf("caller %d: the specification ends with %s after %d requests, the implementation with %s after %d requests",
 						c, ret.Res, len(posts), call.Res, len(call.Posts)), ctxt)
 			}
+			if ret.Res != "ctx" && call.Res == ret.Res && len(call.Posts) == len(posts) {
+				// the result carries the response of one exchange of the submission (the specification's: by identity)
+				want, got := -1, -1
+				for i, p := range posts {
+					if p.ID == ret.ID {
+						want = i
+					}
+				}
+				for i, p := range call.Posts {
+					if p.Content == call.RetID {
+						got = i
+					}
+				}
+				rep.Add("carried_responses_compared", 1)
+				if want != got {
+					rep.Violate("replay:result-carries-other-response:"+ret.Res, fmt.Sprintf("caller %d: the specification's result carries the response of request %d "+
+						"of the submission, the implementation's that of request %d (0: none of them)", c, want+1, got+1), ctxt)
+				}
+			}
 			if ret.Res == "ctx" && call.Res == "ctx" && call.TRet != max(e, call.T0) {
 				rep.Violate("replay:ctx-return-instant", fmt.Sprintf("caller %d: context ended at %d ms, returned at %d ms", c, e, call.TRet), ctxt)
 			}
@@ -277,7 +299,9 @@ func TestReplay(t *testing.T) {
 		"against the specification's window in single-caller behaviours, property monitors on every timeline; the behaviour fixes the http.Client "+
 		"configuration of the client (none / plain / own CheckRedirect passing, bounding, handing back, refusing / jar / Timeout), the wire kind of every "+
 		"response (redirect chains converting or preserving the POST, loops) and the spelling of every 200 body (10 legal JSON spellings of the correct "+
-		"response, 11 unparsable bodies; success must carry the content of that very response); non-trivial = distinct set of "+
+		"response, 11 unparsable bodies; success must carry the content of that very response); process histories of 8 clients: every returned result "+
+		"(error value with status and body, *http.Response, body slice, parsed struct, SCT) is kept as handed out and re-inspected after every later return "+
+		"and at the end of every client's life (Inspect events; monitor retained-result-changed); non-trivial = distinct set of "+
 		"(response class, Retry-After form, body spelling, redirect kind x http.Client, result) with at least two requests")
 	rec, err := vh.NewRecorder("replay-traces.ndjson")
 	if err != nil {
@@ -292,9 +316,11 @@ func TestReplay(t *testing.T) {
 		if err != nil {
 			t.Fatal(err)
 		}
+		beginScenario(rec, replayHistoryLen, sc)
 		run := RunScenario(t, sc)
 		CheckRun(rep, run, sc)
 		if run.Runaway != "" {
+			proc.poisoned = true
 			continue
 		}
 		compareWithSpec(rep, beh, sc, run, i)
@@ -325,7 +351,8 @@ func TestTrace(t *testing.T) {
 	rep := vh.NewReport("c13-trace", "seeded random scenarios on the real client under virtual time and -race (1..3 goroutines sharing one client, "+
 		"finite scripts and infinite ones under a deadline or cancellation, redirect chains of 1..3 hops over 301/302/303/307/308 and loops through "+
 		"8 http.Client configurations, 200 bodies in 10 legal and 11 illegal spellings, jsonclient.Options with / without UserAgent and Authorization, "+
-		"Retry-After in seconds / HTTP-date / garbage); Reset{hc}/Call/Post{w,sp}/State/Return events validated by RetryTrace.tla (the specification "+
+		"Retry-After in seconds / HTTP-date / garbage); process histories of 6 consecutive clients whose returned results are kept as handed out and "+
+		"re-inspected after every later return; Process/Reset{hc}/Call/Post{id,w,sp}/State/Return{id}/Inspect{seen} events validated by RetryTrace.tla (the specification "+
 		"decides what class the submission sees), property monitors on every timeline; non-trivial = distinct set of "+
 		"(response class, Retry-After form, body spelling, redirect kind x http.Client, result) with at least two requests")
 	rec, err := vh.NewRecorder("traces.ndjson")
@@ -339,6 +366,7 @@ func TestTrace(t *testing.T) {
 	rng := vh.Rand(13)
 	for i := 0; i < ntraces; i++ {
 		sc := randScenario(rng)
+		beginScenario(rec, traceHistoryLen, sc)
 		run := RunScenario(t, sc)
 		CheckRun(rep, run, sc)
 		writeEvents(rec, scen, run, sc)
@@ -369,11 +397,16 @@ func TestScenario(t *testing.T) {
 	if err != nil {
 		t.Fatal(err)
 	}
-	var sc Scenario
-	if err := json.Unmarshal(b, &sc); err != nil {
-		t.Fatal(err)
+	// one scenario, or the scenarios (consecutive clients) of one process history
+	var scs []Scenario
+	if err := json.Unmarshal(b, &scs); err != nil {
+		var sc Scenario
+		if err := json.Unmarshal(b, &sc); err != nil {
+			t.Fatal(err)
+		}
+		scs = []Scenario{sc}
 	}
-	rep := vh.NewReport("c13-scenario", "one scenario re-executed")
+	rep := vh.NewReport("c13-scenario", "one scenario / one process history re-executed")
 	rec, err := vh.NewRecorder("traces.ndjson")
 	if err != nil {
 		t.Fatal(err)
@@ -383,10 +416,18 @@ func TestScenario(t *testing.T) {
 		t.Fatal(err)
 	}
 	for i := 0; i < vh.EnvInt("VERIF_REPEAT", 20); i++ { // jitter differs from run to run
-		run := RunScenario(t, sc)
-		CheckRun(rep, run, sc)
-		writeEvents(rec, scen, run, sc)
-		rep.Eval(runKey(run))
+		for k, sc := range scs {
+			hl := traceHistoryLen
+			if len(scs) > 1 { // the history as it was: a new one with its first client
+				hl = 1 << 30
+				proc.poisoned = proc.poisoned || k == 0
+			}
+			beginScenario(rec, hl, sc)
+			run := RunScenario(t, sc)
+			CheckRun(rep, run, sc)
+			writeEvents(rec, scen, run, sc)
+			rep.Eval(runKey(run))
+		}
 	}
 	if err := rec.Close(); err != nil {
 		t.Fatal(err)
